@@ -60,6 +60,19 @@ theorem shared_writes_classified :
 theorem tls_config_aliases_classified :
     Generated.tlsConfigAliases = [("http/http.go:NewHTTPClient", "tlsPool.LoadTLSConfig(cfg)")] := by decide
 
+/-- single-threaded by construction: start-up phases (before any check is served) and the lock-required helper -/
+def startupOrHelper : List (String × String) :=
+  [("k8s/secret_controller.go", "SecretController.loadSecrets"), ("oidc/session.go", "sessionStoreFactory.PreRun"),
+   ("oidc/memory.go", "memoryStore.live")]
+
+/-- EVERY write to a map that hangs off a struct field, anywhere under internal/ (regenerated): it happens with a mutex
+    held, in a constructor, in a start-up phase, or in the lock-required helper (whose callers `lock_discipline` covers).
+    A cache added to a long-lived object - e.g. handlers memoised per chain in the ext_authz filter - and filled
+    without a lock shows up here. -/
+theorem field_maps_guarded :
+    (Generated.fieldMapWrites.all fun e => e.2.2.2.2 || startupOrHelper.any fun h => h.1 == e.1 && h.2 == e.2.1) = true := by
+  decide
+
 /-- the Redis store keeps no mutable state of its own (no field is assigned outside the constructor) -/
 theorem redis_store_stateless : Generated.redisFieldWrites = [] := by decide
 
@@ -79,4 +92,5 @@ end AuthProps.C16
 #print axioms AuthProps.C16.package_maps_guarded
 #print axioms AuthProps.C16.shared_writes_classified
 #print axioms AuthProps.C16.tls_config_aliases_classified
+#print axioms AuthProps.C16.field_maps_guarded
 #print axioms AuthProps.C16.redis_store_stateless
